@@ -115,8 +115,8 @@ func scenarioC09(r *Run) {
 			cur, faulted = append(append([]byte{}, tg[:len(tg)-1]...), cur...), true
 			r.Fired("outertag")
 		} else {
-			kinds := []string{"rewidth", "keyreorder", "unprot-edit"}
-			if out, k, ok := StructFault(t, cur, kinds[t.Choose(3, "c09.fault.kind")]); ok {
+			kinds := []string{"rewidth", "keyreorder", "unprot-edit", "algtext"}
+			if out, k, ok := StructFault(t, cur, kinds[t.Choose(4, "c09.fault.kind")]); ok {
 				cur, faulted = out, true
 				r.Fired(k)
 			}
@@ -205,7 +205,7 @@ func scenarioC09(r *Run) {
 		if eerr != nil {
 			if keep && !dropped {
 				r.Fail("reencode-fails-with-raw-kept/"+spec.Kind.String(), "hop %d: an untouched decoded message cannot be encoded again: %v\ninput: %s", h, eerr, hexShort(cur))
-			} else if !faulted {
+			} else {
 				r.Fail("reencode-fails-after-dropping-raw/"+spec.Kind.String(), "hop %d: a decoded conforming message cannot be encoded from its parsed headers: %v\ninput: %s", h, eerr, hexShort(cur))
 			}
 			r.Outcome("reencode-refused")
